@@ -169,7 +169,75 @@ func checkInstanceLayout(r *fakekv.PushRing, l layout, now time.Time) error {
 			return fmt.Errorf("zone %s: %v", z, err)
 		}
 	}
+	return checkSubrings(r, l)
+}
+
+// checkSubrings: the same relation on shuffle-shard sub-rings (their token index is built by another
+// code path: a per-zone merge of the members' tokens).
+func checkSubrings(r *fakekv.PushRing, l layout) error {
+	for _, tenant := range []string{"t1", "t2", "t3"} {
+		for _, perZone := range []int{1, 2} {
+			sub := r.ShuffleShard(tenant, perZone*l.Zones)
+			rs, err := sub.GetAllHealthy(ring.Reporting)
+			if err != nil {
+				return fmt.Errorf("sub-ring %s/%d: %v", tenant, perZone*l.Zones, err)
+			}
+			var toks []uint32
+			zones := map[string]bool{}
+			for _, in := range rs.Instances {
+				toks = append(toks, in.Tokens...)
+				if len(in.Tokens) > 0 {
+					zones[in.Zone] = true
+				}
+			}
+			if len(zones) != l.Zones {
+				continue
+			}
+			vx.Class("subrings_checked", 1)
+			keys := keysFor(toks)
+			perZoneRanges := map[string]map[string]ring.TokenRanges{}
+			for _, in := range rs.Instances {
+				tr, err := sub.GetTokenRangesForInstance(in.Id)
+				if err != nil {
+					return fmt.Errorf("sub-ring %s/%d: GetTokenRangesForInstance(%s): %v", tenant, perZone*l.Zones, in.Id, err)
+				}
+				if perZoneRanges[in.Zone] == nil {
+					perZoneRanges[in.Zone] = map[string]ring.TokenRanges{}
+				}
+				perZoneRanges[in.Zone][in.Id] = tr
+				for _, k := range keys {
+					got, err := sub.Get(k, ring.WriteNoExtend, nil, nil, nil)
+					if err != nil {
+						return fmt.Errorf("sub-ring %s/%d: Get(%d): %v", tenant, perZone*l.Zones, k, err)
+					}
+					owns := false
+					for _, g := range got.Instances {
+						if g.Id == in.Id {
+							owns = true
+						}
+					}
+					if owns != tr.IncludesKey(k) {
+						return fmt.Errorf("sub-ring %s/%d (members %v): instance %s key %d: lookup assigns=%v, ranges %v include=%v", tenant, perZone*l.Zones, ids(rs), in.Id, k, owns, tr, tr.IncludesKey(k))
+					}
+				}
+			}
+			for z, m := range perZoneRanges {
+				if err := checkTiling(m); err != nil {
+					return fmt.Errorf("sub-ring %s/%d zone %s: %v", tenant, perZone*l.Zones, z, err)
+				}
+			}
+		}
+	}
 	return nil
+}
+
+func ids(rs ring.ReplicationSet) []string {
+	var out []string
+	for _, in := range rs.Instances {
+		out = append(out, in.Id)
+	}
+	sort.Strings(out)
+	return out
 }
 
 func newRing(zones int) *fakekv.PushRing {
